@@ -344,7 +344,7 @@ func (g *Gen) genC04() {
 			calls = append(calls, pcall{c, st})
 		}
 		if strings.HasPrefix(hd, "msg") && r.P(50) {
-			line += " | G" // signature (only computed for a message whose parse completed)
+			line += " | G" // the signature function in whatever state the parse is in (complete, suspended, failed)
 		}
 		g.add(safetyCase("C04", line, calls, nil, kind))
 	}
@@ -371,6 +371,9 @@ func (g *Gen) genC04() {
 			if s < steps {
 				sb.WriteString(" | " + r.Pick("R", "I"))
 			}
+		}
+		if r.P(50) {
+			sb.WriteString(" | G") // the signature function in whatever state the object is in
 		}
 		g.add(safetyCase("C04", sb.String(), calls, nil, "msg-reuse-history"))
 	}
